@@ -99,6 +99,27 @@ def sideOn (S' : Schema) (r : List Nat) : Option String :=
       hasTy S' (.strct j) (zeroVal S' S'.length (.strct j))) then some "schema-side-condition"
   else none
 
+/- C01's "enum values within 32 bits": an enum is written as its low 32 bits and read back sign-extended;
+   beyond that two distinct map keys can become one, and which entry survives is Go's map order -/
+mutual
+def enums32 (S : Schema) : Ty → Val → Bool
+  | .base .enum, .sc n => n < 2147483648 || n ≥ 18446744071562067968
+  | .ptr e, .ptr v => enums32 S e v
+  | .list _ e, .lst _ xs => enums32List S e xs
+  | .map k v, .mp _ es => enums32Entries S k v es
+  | .strct sid, .st fs _ => enums32Fields S (S.get sid).fields fs
+  | _, _ => true
+def enums32List (S : Schema) (e : Ty) : List Val → Bool
+  | [] => true
+  | x :: r => enums32 S e x && enums32List S e r
+def enums32Entries (S : Schema) (k v : Ty) : List (Val × Val) → Bool
+  | [] => true
+  | (a, b) :: r => enums32 S k a && enums32 S v b && enums32Entries S k v r
+def enums32Fields (S : Schema) : List Field → List Val → Bool
+  | f :: fr, x :: xr => enums32 S f.ty x && enums32Fields S fr xr
+  | _, _ => true
+end
+
 /-- hypotheses of `Frugal.C01.roundtrip_with_top_holder` on the holder: it is the serialisation of
     well-formed fields none of which the struct recognises, skippable within 64 levels -/
 def topHolderOK (S : Schema) (i : Nat) (h : Bytes) : Bool :=
@@ -119,6 +140,7 @@ def rtWhy (S : Schema) (r : List Nat) (i : Nat) (vv dv : Val) : Option String :=
     else if !noHolderList xs then some "nested-holder-bytes"
     else if !(h.isEmpty || topHolderOK S i h) then some "holder-not-unrecognised-fields"
     else if !sizesFitList xs then some "size"
+    else if !enums32 S (.strct i) vv then some "enum-beyond-32-bits"
     else if !rtOK S (.strct i) vv then some "nil-struct-with-required-fields"
     else if !decide (depth (toWire S (.strct i) vv) ≤ 511) then some "depth"
     else none
